@@ -5,7 +5,7 @@ from . import spec as S
 from .vals import *
 from .core import *
 from .interp_expr import Frame
-from .interp_call import SRange
+from .interp_call import SRange, SEnum
 
 PURE_DYN_METHODS = {'get', 'keys', 'values', 'items', 'currencies', 'get_currency_units', 'is_empty', 'lower', 'upper',
                     'strip', 'quantize', 'weekday', 'isoweekday', 'isocalendar', 'date', 'get_positions', 'copy',
@@ -191,6 +191,15 @@ class StmtMixin:
                 self.heap[base.oid][target.attr] = v
                 self.written.add((base.oid, target.attr))
                 return
+            if isinstance(base, SDyn) and not self.specmode:
+                if not isinstance(base.shape, (S.Rec, S.Opaque)) and not self.d.contract_assumes('ATTRS_PRESENT'):
+                    if self.branch(Val.is_VNone(base.t)):
+                        raise PyRaise('AttributeError', getattr(target, 'lineno', None), "'NoneType' object has no attribute")
+                self.set_fld(target.attr, base.t, self.to_val(v))
+                return
+            if isinstance(base, SDyn) and self.specmode:
+                self.set_fld(target.attr, base.t, self.to_val(v))
+                return
             raise Unsupported(f'attribute assignment on {base!r}')
         if isinstance(target, ast.Subscript):
             base = self.eval(fr, target.value)
@@ -277,6 +286,15 @@ class StmtMixin:
                 except ContinueEx:
                     continue
             return
+        enum_index = None
+        if isinstance(it, SEnum):
+            if not (isinstance(st.target, ast.Tuple) and len(st.target.elts) == 2 and isinstance(st.target.elts[0], ast.Name)):
+                raise Unsupported('for ... in enumerate target')
+            enum_index = st.target.elts[0].id
+            it = it.seq
+            k0 = self.loop_ordinal(fr, st)
+            st = ast.For(target=st.target.elts[1], iter=st.iter, body=st.body, orelse=st.orelse, lineno=st.lineno)
+            self.loop_index[id(st)] = k0
         if isinstance(it, SObj):
             seq = self.table_seq(fr, it, st)
         elif isinstance(it, SRange):
@@ -292,7 +310,7 @@ class StmtMixin:
             bound = self.d.contract.unroll
             if bound is None:
                 raise Unsupported(f'loop #{k} at line {st.lineno} has no invariant')
-            return self.unroll_for(fr, st, it, seq, bound)
+            return self.unroll_for(fr, st, it, seq, bound, enum_index)
         n = z3.Length(seq.t) if seq is not None else z3.If(it.hi > it.lo, it.hi - it.lo, 0)
 
         def elem(i):
@@ -327,6 +345,10 @@ class StmtMixin:
             o = fr.env.get(on)
             if isinstance(o, SObj) and fld in self.heap[o.oid]:
                 self.heap[o.oid][fld] = self.havoc_like(self.heap[o.oid][fld], f'{on}.{fld}')
+        for (on, fld) in sorted(fields):
+            if not isinstance(fr.env.get(on), SObj):
+                self.field_arr(fld)
+                self.fields[fld] = z3.Const(self.fresh('hvF_' + fld), z3.ArraySort(Val, Val))
         if self.yielded is not None:
             self.yielded = SSeq(z3.Const(self.fresh('out'), SeqV), 'tuple')
         if alt == 0:
@@ -334,6 +356,8 @@ class StmtMixin:
             self.assume(z3.And(i >= 0, i < n))
             self.assume(inv_at(i))
             self.assign(fr, st.target, elem(i))
+            if enum_index is not None:
+                fr.env[enum_index] = SInt(i)
             try:
                 self.exec_block(fr, st.body)
             except ContinueEx:
@@ -347,7 +371,7 @@ class StmtMixin:
             # loop variable after the loop: last element if any (unknown otherwise)
             return
 
-    def unroll_for(self, fr, st, it, seq, bound):
+    def unroll_for(self, fr, st, it, seq, bound, enum_index=None):
         self.tier = 'T2'
         n = z3.Length(seq.t)
         self.assume(n <= bound)
@@ -356,6 +380,8 @@ class StmtMixin:
                 return
             e = seq.t[i]
             self.assign(fr, st.target, self.from_val(e, seq.elem) if seq.elem is not None else SDyn(e))
+            if enum_index is not None:
+                fr.env[enum_index] = lift(i)
             try:
                 self.exec_block(fr, st.body)
             except BreakEx:
